@@ -592,7 +592,7 @@ impl Check for C07 {
     fn meta(&self) -> Meta {
         Meta {
             level: "exploration",
-            rule: "2-4 concurrent requests between the real endpoint under test (server role or client role) and a reference peer; a drawn subset (possibly empty, possibly all) suffers exactly one stream-scoped fault: RESET(any code) at a drawn byte offset of the peer's sending side, STOP_SENDING(any code) against h3's sending side at a drawn script position, a validly encoded but malformed message (upper-case name, bad value byte, unknown pseudo-header, missing :method/:status, contradictory authority), a field section one over the limit, FIN before HEADERS (server role); the others carry generated messages that are echoed; what the application does with a faulty handle afterwards (drop, finish, retry a send) is drawn; all interleavings of request tasks, deliveries and the fault are drawn; non-trivial = at least one fault and one healthy request and >= 2 chunk deliveries; distinct = distinct schedule signatures",
+            rule: "2-4 concurrent requests between the real endpoint under test (server role or client role) and a reference peer; a drawn subset (possibly empty, possibly all) suffers exactly one stream-scoped fault: RESET(any code) at a drawn byte offset of the peer's sending side incl. just past the last byte (RESET instead of FIN), STOP_SENDING(any code) against h3's sending side at a drawn script position, a validly encoded but malformed message (upper-case name, bad value byte, unknown pseudo-header, missing :method/:status, contradictory authority), a field section one over the limit, FIN before HEADERS (server role); the others carry generated messages that are echoed; what the application does with a faulty handle afterwards (drop, finish, retry a send) is drawn; all interleavings of request tasks, deliveries and the fault are drawn; non-trivial = at least one fault and one healthy request and >= 2 chunk deliveries; distinct = distinct schedule signatures",
             real: &["h3 server (Connection, RequestResolver, RequestStream) / h3 client (Connection driver, SendRequest, split RequestStream halves)", "h3 connection/frame/stream/qpack/proto modules, error propagation"],
             stub: &["QUIC transport (SimQuic)", "executor (simexec)", "reference peer (script + reference codecs, reads h3's output from the wire log)", "applications (echo server / concurrent client requests)"],
             assumptions: &["client role: the wire codes of stop_sending after a malformed/oversized response are not judged", "a STOP_SENDING that arrives after h3 finished sending legitimately goes unnoticed"],
@@ -611,7 +611,12 @@ impl Check for C07 {
         // resets: draw the byte offset now that the bytes are known
         for p in plans.iter_mut() {
             if let Fault::Reset(c, _) = p.fault {
-                p.fault = Fault::Reset(c, draw_usize(p.bytes.len()));
+                // anywhere in the message, and - one time in four - just past its last byte (RESET instead of FIN)
+                let off = if chance(1, 4) { p.bytes.len() } else { draw_usize(p.bytes.len()) };
+                if off == p.bytes.len() {
+                    obs::count("probe.reset_instead_of_fin");
+                }
+                p.fault = Fault::Reset(c, off);
             }
         }
         let mut cfg = NetCfg::drawn();
